@@ -75,6 +75,23 @@ Fixpoint esc_cell (s : string) : string :=
       else String c (esc_cell r)
   end.
 
+(* escapeParagraph: a backslash before the first non-blank character of every line that starts
+   like a Markdown block ('#', '-', '=', '+', '*', '>', '|', '_', backtick, '~') *)
+Definition is_marker (c : ascii) : bool :=
+  existsb (Ascii.eqb c) ["#"; "-"; "="; "+"; "*"; ">"; "|"; "_"; "`"; "~"]%char.
+Fixpoint esc_par_aux (at_start : bool) (s : string) : string :=
+  match s with
+  | EmptyString => EmptyString
+  | String c r =>
+      if Ascii.eqb c lf then String c (esc_par_aux true r)
+      else if at_start then
+        if orb (Ascii.eqb c space) (Ascii.eqb c (ascii_of_nat 9)) then String c (esc_par_aux true r)
+        else if is_marker c then String "\"%char (String c (esc_par_aux false r))
+        else String c (esc_par_aux false r)
+      else String c (esc_par_aux false r)
+  end.
+Definition esc_par (s : string) : string := esc_par_aux true s.
+
 (* ---------------------------------------------------------------- the network tree *)
 
 Record sigtype := { st_id : N; st_name : string; st_desc : string; st_size : Z; st_kind : string;
@@ -105,7 +122,8 @@ Inductive block :=
 | Para (text : string)
 | Table (header : list string) (rows : list (list string))
 | Rule
-| Bullet (text : string).
+| Bullet (text : string)
+| LF.   (* Markdown.LF(): a line of two blanks - for CommonMark a blank line, it ends a paragraph *)
 
 (* mdExporter.writeTable: the cells of the rows (not of the header) are escaped *)
 Definition mk_table (header : list string) (rows : list (list string)) : block :=
@@ -250,7 +268,7 @@ Definition enums_listed (n : net) : list sigenum :=
 (* ---------------------------------------------------------------- the document *)
 
 Definition desc_blocks (desc : string) : list block :=
-  if String.eqb desc "" then [] else [Para desc; Rule].
+  if String.eqb desc "" then [] else [Para (esc_par desc); LF; Rule].
 
 Definition dec_hex_line (label : string) (v : Z) : string :=
   label ++ ": " ++ bold (dec v) ++ " (dec), " ++ bold ("0x" ++ hexs v) ++ " (hex)".
@@ -258,12 +276,12 @@ Definition dec_hex_line (label : string) (v : Z) : string :=
 Definition msg_blocks (m : msg) : list block :=
   ([Rule; H 4 (m_name m)]
    ++ desc_blocks (m_desc m)
-   ++ [Para (dec_hex_line ("CAN-ID " ++ (if m_static m then "(static)" else "(generated)")) (m_canid m))]
-   ++ (if m_static m then [] else [Para (dec_hex_line "Message ID" (m_id m))])
-   ++ [Para ("Size: " ++ bold (dec (m_size m)) ++ " bytes");
-       Para ("Byte Order: " ++ bold (m_byteorder m));
-       Para ("Cycle Time: " ++ (if 0 <? m_cycle m then bold (dec (m_cycle m)) ++ " ms" else "-"));
-       Para ("Receivers: " ++ join ", " (map header_link (m_receivers m)))]
+   ++ [Para (dec_hex_line ("CAN-ID " ++ (if m_static m then "(static)" else "(generated)")) (m_canid m)); LF]
+   ++ (if m_static m then [] else [Para (dec_hex_line "Message ID" (m_id m)); LF])
+   ++ [Para ("Size: " ++ bold (dec (m_size m)) ++ " bytes"); LF;
+       Para ("Byte Order: " ++ bold (m_byteorder m)); LF;
+       Para ("Cycle Time: " ++ (if 0 <? m_cycle m then bold (dec (m_cycle m)) ++ " ms" else "-")); LF;
+       Para ("Receivers: " ++ join ", " (map header_link (m_receivers m))); LF]
    ++ match m_sigs m with
       | [] => []
       | _ => [mk_table sig_header (rows_sigs 0 (m_sigs m))]
@@ -272,13 +290,13 @@ Definition msg_blocks (m : msg) : list block :=
 Definition nif_blocks (x : nif) : list block :=
   ([Rule; H 3 (n_name x)]
    ++ desc_blocks (n_desc x)
-   ++ [Para (dec_hex_line "Node ID" (n_id x))]
+   ++ [Para (dec_hex_line "Node ID" (n_id x)); LF]
    ++ flat_map msg_blocks (n_msgs x))%list.
 
 Definition bus_blocks (b : bus) : list block :=
   ([H 2 (b_name b)]
    ++ desc_blocks (b_desc b)
-   ++ [Para ("Baudrate: " ++ (if b_baud b =? 0 then "-" else bold (dec (b_baud b))) ++ " bps")]
+   ++ [Para ("Baudrate: " ++ (if b_baud b =? 0 then "-" else bold (dec (b_baud b))) ++ " bps"); LF]
    ++ flat_map nif_blocks (b_nifs b))%list.
 
 Definition tab : string := String (ascii_of_nat 9) "".
@@ -310,17 +328,17 @@ Definition enum_blocks (e : sigenum) : list block :=
    ++ [mk_table value_header (map value_row (se_values e))])%list.
 
 Definition appendix_blocks (n : net) : list block :=
-  ([H 2 "Signal Types"; Para "The list of all the signal types used in the network.";
+  ([H 2 "Signal Types"; Para "The list of all the signal types used in the network."; LF;
     mk_table type_header (map type_row (types_listed n));
-    H 2 "Signal Units"; Para "The list of all the signal units used in the network.";
+    H 2 "Signal Units"; Para "The list of all the signal units used in the network."; LF;
     mk_table unit_header (map unit_row (units_listed n));
-    H 2 "Signal Enums"; Para "The list of all the signal enums used in the network."]
+    H 2 "Signal Enums"; Para "The list of all the signal enums used in the network."; LF]
    ++ flat_map enum_blocks (enums_listed n))%list.
 
 Definition preamble_blocks (n : net) : list block :=
   ([Para "> [!IMPORTANT]  ";
     Para "> This markdown document is generated by [acmelib](https://github.com/squadracorsepolito/acmelib)";
-    H 1 (nt_name n)]
+    LF; H 1 (nt_name n)]
    ++ desc_blocks (nt_desc n))%list.
 
 Definition blocks (n : net) : list block :=
